@@ -225,7 +225,56 @@ def _run_abort(case):
   return {'abort': toks}
 
 
+def _run_cannot_start(case):
+  """a Test one of whose phases still has a plug placeholder: execute() cannot build its state and raises. Afterwards
+  the Test holds no executor, is not registered for SIGINT, no record handler of it remains, and executing it again
+  fails the same way (not with 'already running')"""
+  import logging
+  import openhtf as htf
+  from openhtf.core import base_plugs, test_descriptor
+  ec.setup()
+
+  class Base(base_plugs.BasePlug):
+    pass
+
+  @htf.plug(p=base_plugs.PlugPlaceholder(Base))
+  def needs_plug(test, p):
+    pass
+  test = htf.Test(needs_plug)
+  test.configure(name='verif_cannot_start')
+  recs = []
+  test.add_output_callbacks(recs.append)
+  h0 = len(logging.getLogger('openhtf').handlers)
+  facts = []
+  kinds = []
+  for k in range(case['times']):
+    try:
+      test.execute()
+      kinds.append('returned')
+    except test_descriptor.InvalidTestStateError:
+      kinds.append('already-running')
+    except Exception as e:  # pylint: disable=broad-except
+      kinds.append(type(e).__name__)
+    if test._executor is not None:
+      facts.append('R:test-keeps-its-executor-after-a-failed-start')
+      break
+    if len(logging.getLogger('openhtf').handlers) != h0:
+      facts.append('R:record-handler-left-behind-after-a-failed-start')
+    if test in test_descriptor.Test.TEST_INSTANCES.values():
+      facts.append('R:test-still-registered-for-sigint-after-a-failed-start')
+  if 'already-running' in kinds:
+    facts.append('R:second-execute-refused-as-already-running')
+  if 'returned' in kinds:
+    facts.append('R:execute-returned-with-an-unsubstituted-placeholder')
+  for h in list(logging.getLogger('openhtf').handlers)[h0:]:
+    logging.getLogger('openhtf').removeHandler(h)
+  test_descriptor.Test.TEST_INSTANCES.clear()
+  return {'abort': sorted(set(facts)) or ['R:start-failure-left-nothing-behind']}
+
+
 def run_real(case):
+  if case.get('kind') == 'cannot_start':
+    return _run_cannot_start(case)
   if case.get('kind') == 'race':
     return _run_race(case)
   if case.get('kind') == 'abort':
@@ -236,7 +285,7 @@ def run_real(case):
 def encode(case, obs):
   if case.get('kind') == 'race':
     return 'C09 RACE %d # %s' % (case['threads'], ' '.join(obs['race']))
-  if case.get('kind') == 'abort':
+  if case.get('kind') in ('abort', 'cannot_start'):
     return 'C09 ABORT # %s' % ' '.join(obs['abort'])
   fake = {'tokens': obs['runs'][0] if obs['runs'] else []}
   head = c08.encode(case, fake).split(' # ')[0].replace('C08 ', 'C09 ', 1)
@@ -246,6 +295,8 @@ def encode(case, obs):
 def classify(case, obs):
   if case.get('kind') == 'race':
     return 'race/%dthreads/%s' % (case['threads'], ','.join(obs['results']))
+  if case.get('kind') == 'cannot_start':
+    return 'cannot-start'
   if case.get('kind') == 'abort':
     return 'abort%s/%s/%s' % ('-sigint' if case.get('mode') == 'sigint' else '', case['prog'], obs['abort'][0])
   return '%druns/%dcb/%s' % (len(case['runs']), len(case.get('callbacks') or []),
@@ -299,6 +350,8 @@ def gen_cases(rng, tier):
     c['runs'] = [{'overlap': r.random() < 0.5} for _ in range(r.choice([1, 2, 3]))]
     c['src'] = 'random'
     cases.append(c)
+  cases.append({'kind': 'cannot_start', 'times': 1})
+  cases.append({'kind': 'cannot_start', 'times': 3})
   from harness.props import c04
   for name in ('line', 'group', 'nested', 'repeat', 'subtest', 'plugs'):
     n = c04._length(name, 'thread')
